@@ -112,10 +112,10 @@ Fixpoint merge_freqs (cf o0 : list N) : option (list N) :=
   end.
 
 (* context_map.insert(k, v): overwrite in place, else a new entry at the end *)
-Fixpoint map_insert (k : N) (v : nat) (m : list (N * nat)) : list (N * nat) :=
+Fixpoint cmap_insert (k : N) (v : nat) (m : list (N * nat)) : list (N * nat) :=
   match m with
   | [] => [(k, v)]
-  | (k', v') :: rest => if k' =? k then (k', v) :: rest else (k', v') :: map_insert k v rest
+  | (k', v') :: rest => if k' =? k then (k', v) :: rest else (k', v') :: cmap_insert k v rest
   end.
 
 (* for (context, context_freqs) in ... { merge; if symbol_count > 0 { tree = from_frequencies(&merged)?;
@@ -131,7 +131,7 @@ Fixpoint build_go (heap_of : list N -> tree) (o0 : list N) (cs : cfreqs)
           if (0 <? length (present mf))%nat then
             match from_freqs heap_of mf with
             | None => None
-            | Some ht => build_go heap_of o0 rest (trees ++ [ht]) (map_insert k (length trees) cmap)
+            | Some ht => build_go heap_of o0 rest (trees ++ [ht]) (cmap_insert k (length trees) cmap)
             end
           else build_go heap_of o0 rest trees cmap
       end
